@@ -134,3 +134,121 @@ example : WFRows exPkgX := by
   rfl
 
 end SF
+
+namespace SF
+variable {K : Type} [Field K] [LinearOrder K] [IsStrictOrderedRing K]
+
+/-- the loop of `filter_output` commutes with any per-record rewrite that keeps the best chi² and the flags -/
+theorem filterLoop_map {ρ : Type} (chi cpd : Option (EF K)) (f : OutRec K ρ → OutRec K ρ)
+    (l : List (OutRec K ρ))
+    (hf : ∀ r ∈ l, (f r).chi2.head? = r.chi2.head? ∧ (f r).flags = r.flags)
+    (g b : List (OutRec K ρ)) :
+    filterLoop chi cpd (l.map f) (g.map f, b.map f) =
+      (filterLoop chi cpd l (g, b)).map (fun gb => (gb.1.map f, gb.2.map f)) := by
+  induction l generalizing g b with
+  | nil => simp [filterLoop, Except.map]
+  | cons r rs ih =>
+    obtain ⟨hh, hfl⟩ := hf r (by simp)
+    have ih' := fun g b => ih (fun r' hr' => hf r' (by simp [hr'])) g b
+    cases hr : r.chi2 with
+    | nil =>
+      rw [hr] at hh
+      have hfr : (f r).chi2 = [] := by
+        cases hc : (f r).chi2 with
+        | nil => rfl
+        | cons a t => rw [hc] at hh; simp at hh
+      simp [filterLoop, hr, hfr, Except.map]
+    | cons c0 t =>
+      rw [hr] at hh
+      obtain ⟨t', hfr⟩ : ∃ t', (f r).chi2 = c0 :: t' := by
+        cases hc : (f r).chi2 with
+        | nil => rw [hc] at hh; simp at hh
+        | cons a t' => rw [hc] at hh; simp at hh; exact ⟨t', by rw [hh]⟩
+      simp only [List.map_cons, filterLoop, hr, hfr, hfl]
+      split
+      · have := ih' (g ++ [r]) b
+        simpa using this
+      · have := ih' g (b ++ [r])
+        simpa using this
+
+/-- **select → filter_output, whole file.** If every record of a file is rewritten by a selection that
+    kept at least one fit (and left the flags alone), `filter_output` produces the rewritten versions of
+    exactly the records it produced before, in the same two files and the same order — and fails
+    (a record without fits) exactly when it failed before. -/
+theorem X_filter_file_after_select {ρ : Type} (chi cpd : Option (EF K)) (f : OutRec K ρ → OutRec K ρ)
+    (input : List (OutRec K ρ))
+    (hf : ∀ r ∈ input, (f r).chi2.head? = r.chi2.head? ∧ (f r).flags = r.flags) :
+    filterOutput chi cpd (input.map f) =
+      (filterOutput chi cpd input).map (fun gb => (gb.1.map f, gb.2.map f)) := by
+  have := filterLoop_map chi cpd f input hf [] []
+  simpa [filterOutput] using this
+
+/-- the rewrite of a record by `FitInfo.keep` with selector `s`: chi² cut to `n_fits`, flags untouched
+    (the other per-fit arrays live in `rest`, which `filter_output` never reads) -/
+def selRec {ρ : Type} (s : Sel K) (cutRest : Nat → ρ → ρ) (r : OutRec K ρ) : OutRec K ρ :=
+  let n := nFits s (nDataSrc r.flags) r.chi2
+  ⟨r.chi2.take n, r.flags, cutRest n r.rest⟩
+
+/-- **C05 ∘ C18 for a whole file**, instantiated with `keep`: selecting inside every record (each
+    selection non-empty) and then running `filter_output` equals running `filter_output` and then
+    selecting inside every output record. -/
+theorem X_filter_commutes_with_keep {ρ : Type} (chi cpd : Option (EF K)) (s : Sel K) (cutRest : Nat → ρ → ρ)
+    (input : List (OutRec K ρ))
+    (hpos : ∀ r ∈ input, 0 < nFits s (nDataSrc r.flags) r.chi2) :
+    filterOutput chi cpd (input.map (selRec s cutRest)) =
+      (filterOutput chi cpd input).map
+        (fun gb => (gb.1.map (selRec s cutRest), gb.2.map (selRec s cutRest))) := by
+  apply X_filter_file_after_select
+  intro r hr
+  refine ⟨?_, rfl⟩
+  have hp := hpos r hr
+  simp only [selRec]
+  cases hx : r.chi2 with
+  | nil => simp
+  | cons c t =>
+    rw [hx] at hp
+    obtain ⟨m, hm⟩ : ∃ m, nFits s (nDataSrc r.flags) (c :: t) = m + 1 :=
+      ⟨nFits s (nDataSrc r.flags) (c :: t) - 1, by omega⟩
+    rw [hm]; simp
+
+end SF
+
+namespace SF
+/-- non-vacuity: a two-record file whose selections (`('N', 1)`) are non-empty, with sources of different `n_data` -/
+def exFileX : List (OutRec Rat Unit) :=
+  [⟨[EF.fin 1, EF.fin 7], [1, 1, 4], ()⟩, ⟨[EF.fin 9, EF.pinf], [1, 3, 0], ()⟩]
+
+example : ∀ r ∈ exFileX, 0 < nFits (Sel.N 1 : Sel Rat) (nDataSrc r.flags) r.chi2 := by
+  intro r hr
+  simp [exFileX] at hr
+  rcases hr with rfl | rfl <;> simp [nFits]
+end SF
+
+namespace SF
+variable {K : Type} [Field K] [LinearOrder K] [IsStrictOrderedRing K]
+
+/-- **selection does not touch the rows it keeps.** Below `n_fits`, the row read off the selected
+    result is the row read off the ranked result, in every column, and the `model_id` is the same. -/
+theorem X_keep_rows (s : Sel K) (nd : Nat) (y : FitRows K) (i : Nat) (hi : i < nFits s nd y.chi2) :
+    rowAt (keep s nd y) i = rowAt y i ∧ (keep s nd y).modelId[i]? = y.modelId[i]? := by
+  have h : ∀ {α : Type} (l : List α), (l.take (nFits s nd y.chi2))[i]? = l[i]? := by
+    intro α l; rw [List.getElem?_take]; simp [hi]
+  refine ⟨?_, by simp [keep, h]⟩
+  unfold rowAt
+  cases hy : y.fluxes with
+  | none => simp [keep, h, hy]
+  | some fl => simp [keep, h, hy]
+
+/-- **fit → rank → select: every kept row describes one model of the package.** For the package as
+    `Models.fit` assembled it and any selector, each kept position `i` holds, in every column, the row of
+    one existing model `m = model_id[i]` of the unsorted package (name, A_V, scale, chi², predicted fluxes
+    all from `m`). -/
+theorem X_fit_select_rows (s : Sel K) (nd : Nat) (x : FitRows K) (hwf : WFRows x) (i : Nat)
+    (hi : i < nFits s nd (sortRows x).chi2) (hlen : i < x.chi2.length) :
+    ∃ m, m < x.chi2.length ∧ (keep s nd (sortRows x)).modelId[i]? = some m ∧
+      (rowAt x m).isSome = true ∧ rowAt (keep s nd (sortRows x)) i = rowAt x m := by
+  obtain ⟨m, hm, hid, hsome, hrow, _⟩ := C04_rows x hwf i hlen
+  obtain ⟨h1, h2⟩ := X_keep_rows s nd (sortRows x) i hi
+  exact ⟨m, hm, by rw [h2, hid], hsome, by rw [h1, hrow]⟩
+
+end SF
